@@ -50,9 +50,11 @@ def sort_case(draw, tier, max_records=60, force_all_ref=None):
     lm = models.LinkModel(g["links"])
     big = draw(st.integers(0, 5)) == 0
     n = draw(st.integers(12, max_records)) if big else draw(st.integers(1, min(max_records, 25)))
-    mode = force_all_ref if force_all_ref is not None else draw(st.sampled_from(["any", "any", "all_ref", "single"]))
+    mode = force_all_ref if force_all_ref is not None else draw(st.sampled_from(["any", "any", "any", "all_ref", "all_ref", "single", "empty"]))
     if mode == "single":
         n = 1
+    if mode == "empty":
+        n = 0  # a GAF without any record is still a GAF: empty output, empty index
     refs = [i for i in ids if g["nodes"][i]["sr"] == 0]
     closed = gen_gaf.revisit_walks(g, lm) if draw(st.booleans()) else []
     lines = []
@@ -73,6 +75,9 @@ def sort_case(draw, tier, max_records=60, force_all_ref=None):
             rec["tags"] = rec["tags"] + ["ds:Z::40*ag:51"]  # minigraph >= 0.21
         elif k_ == 2:
             rec["tags"] = rec["tags"] + ["xx:i:1", "xx:i:2", "fl:f:-1.5e-3"]
+        elif k_ == 3:
+            # the output of an earlier sort (other chromosome order), possibly realigned afterwards
+            rec["tags"] = rec["tags"] + ["bo:i:%d" % draw(st.integers(0, 30)), "sn:Z:chr7", "iv:i:0"] + (["zz:Z:later"] if draw(st.booleans()) else [])
         lines.append(gen_gaf.record_line(rec))
     data_len = sum(len(l) + 1 for l in lines)
     comp = None
@@ -203,6 +208,8 @@ def classes_of(case, nodes, exp):
         cl.append("no_final_newline")
     if case.get("crlf"):
         cl.append("crlf_line_endings")
+    if any("\tbo:i:" in l for l in case["gaf"]):
+        cl.append("input_already_sorted_once")
     if any(" " in l.split("\t")[0] or "ds:Z:" in l or "xx:i:2" in l for l in case["gaf"]):
         cl.append("record_a_lossy_parser_would_rewrite")
     if any(t[0][2] == "iv:i:1" for t in exp):
@@ -215,6 +222,8 @@ def classes_of(case, nodes, exp):
         cl.append("reverse_anchor")
     if len({t[0][1] for t in exp} - {"sn:Z:unknown"}) >= 2:
         cl.append(">=2_contigs")
+    if not case["gaf"]:
+        cl.append("empty_gaf")
     if any(":" in t[0][1][5:] for t in exp):
         cl.append("contig_name_with_colon")
     return cl
